@@ -221,13 +221,17 @@ class Program:
                 tree = ast.parse(src, filename=path)
             except SyntaxError as e:
                 raise AnalysisError("cannot parse %s: %s" % (rel, e))
-            from .canon import canonicalise
-            tree = canonicalise(tree)      # one spelling for equivalent comparisons / negated branches (see sa/canon.py)
             parts = rel[:-3].split(os.sep)
             is_pkg = parts[-1] == "__init__"
             if is_pkg:
                 parts = parts[:-1]
             name = ".".join(parts)
+            from .reinline import reinline_module
+            inl = reinline_module(tree, name)       # new single-use private helpers are spliced back into their caller (sa/reinline.py)
+            if inl:
+                self.reinlined = getattr(self, "reinlined", []) + ["%s:%s" % (name, q) for q in inl]
+            from .canon import canonicalise
+            tree = canonicalise(tree)      # one spelling for equivalent comparisons / negated branches (see sa/canon.py)
             self.modules[name] = Module(name, path, rel, src, tree, is_pkg)
 
     # ---------------------------------------------------------------- collection
